@@ -5,6 +5,7 @@ import Tapeverif.Model.Hash
 import Tapeverif.Model.Ed25519
 import Tapeverif.Model.Auth
 import Tapeverif.Model.Tools
+import Tapeverif.Model.SigPure
 /-! Line-protocol driver: one request per line on stdin, one reply per line on stdout. -/
 open TV
 
@@ -234,6 +235,15 @@ def handle (line : String) : String :=
   | ["BUILD", "ts_between", b, e, v] => match b.toInt?, e.toInt? with
       | some x, some y => hx (Tools.timestampBetweenLock x y (v = "1"))
       | _, _ => "bad-op"
+  | ["CSPURE", mis, ca, al, sg, vk] =>
+      match mis.toNat?, parseCache ca, al.toNat?, ofHex sg, ofHex vk with
+      | some m, some cache, some a, some s, some k => showRB (SigPure.checkSig Ed.hashes Ed.curve m cache a s k)
+      | _, _, _, _, _ => "bad-op"
+  | ["MSPURE", mis, ca, al, sgs, vks] =>
+      let parseList (x : String) : Option (List Bytes) := if x = "-" then some [] else (x.splitOn ",").mapM (fun h => if h = "e" then some [] else ofHex h)
+      match mis.toNat?, parseCache ca, al.toNat?, parseList sgs, parseList vks with
+      | some m, some cache, some a, some ss, some ks => showRB (SigPure.multisig Ed.hashes Ed.curve m cache a ss ks)
+      | _, _, _, _, _ => "bad-op"
   | ["RUN", c, ca, sc] => runCmd c ca sc false
   | ["AUTH", c, ca, sc] => runCmd c ca sc true
   | "PRIM" :: f :: args =>
